@@ -170,9 +170,19 @@ func TestC05CLI(t *testing.T) {
 		for _, args := range [][]string{{"fmt", warm}, {"run", warm}, {"test", warmTest}} {
 			_, errText, exit, to := runEgo(bin, egoHome, filepath.Dir(args[1]), args...)
 
+			// "could not be started" (fork / pipe failure under load) is not a result of ego
+			for try := 0; try < 3 && exit == exitNotRun && !to; try++ {
+				r.Count("cli.start_retries", 1)
+
+				_, errText, exit, to = runEgo(bin, egoHome, filepath.Dir(args[1]), args...)
+			}
+
 			switch {
 			case to:
 				r.Count("inconclusive.cli_watchdog", 1)
+			case exit == exitNotRun:
+				r.Count("inconclusive.cli_could_not_start", 1)
+				r.Inconcl("the ego binary could not be started for the warm-up `ego " + args[0] + "` (" + trunc(errText, 200) + ")")
 			case exit != 0:
 				t.Fatalf("harness error: warm-up `ego %s` failed (exit %d): %s", args[0], exit, trunc(errText, 400))
 			}
